@@ -734,13 +734,13 @@ func disassembleInstruction(fn *runtime.Function, globals []Global, addr runtime
 func funcNameType(fn *runtime.Function, index int8, addr runtime.Addr, op runtime.Operation) (bool, string, reflect.Type) {
 	switch op {
 	case runtime.OpCallFunc, runtime.OpCallMacro:
-		macro := fn.Functions[index].Macro
-		typ := fn.Functions[index].Type
-		name := fn.Functions[index].Name
+		macro := fn.Functions[uint8(index)].Macro
+		typ := fn.Functions[uint8(index)].Type
+		name := fn.Functions[uint8(index)].Name
 		return macro, name, typ
 	case runtime.OpCallNative:
-		name := fn.NativeFunctions[index].Name()
-		typ := reflect.TypeOf(fn.NativeFunctions[index].Func())
+		name := fn.NativeFunctions[uint8(index)].Name()
+		typ := reflect.TypeOf(fn.NativeFunctions[uint8(index)].Func())
 		return false, name, typ
 	case runtime.OpCallIndirect, runtime.OpDefer:
 		return false, "", fn.InstructionInfo[addr].FuncType
